@@ -87,7 +87,15 @@ def refs(y, yh, eps):
     out = {}
     out['residuals'] = fs(v * v for v in d)
     out['rmse'] = math.sqrt(out['residuals'] / n)
-    out['rmsle'] = math.sqrt(fs((math.log(a + 1) - math.log(b + 1)) ** 2 for a, b in zip(y, yh)) / n)
+    # log1p: the value of log(y+1) itself; an implementation that forms y+1 (or (y+1)/(yh+1)) first
+    # commits a relative rounding error in the argument, i.e. an ABSOLUTE error of ~eps in each
+    # logarithm - hence the absolute allowance 'rmsle_floor' (the RMS is 1-Lipschitz in the terms)
+    try:
+        out['rmsle'] = math.sqrt(fs((math.log1p(a) - math.log1p(b)) ** 2 for a, b in zip(y, yh)) / n)
+        out['rmsle_floor'] = 8 * float(np.finfo(float).eps) * (1.0 + max(max(abs(math.log1p(a)), abs(math.log1p(b))) for a, b in zip(y, yh)))
+    except ValueError:
+        out['rmsle'] = None
+        out['rmsle_floor'] = 0.0
     with np.errstate(all='ignore'):
         try:
             out['rmspe'] = math.sqrt(fs(((a - b) / (a + eps)) ** 2 for a, b in zip(y, yh)) / n)
@@ -149,7 +157,7 @@ def oracle_metric(case, rec):
         if v is None or R[name] is None:
             continue
         vals[name] = v
-        floor = 1e-12 * scale2 if name == 'residuals' else 0.0
+        floor = 1e-12 * scale2 if name == 'residuals' else R['rmsle_floor'] if name == 'rmsle' else 0.0
         rec.check(close(v, R[name], 1e-9, floor), name + ':value', 'impl=%r ref=%r y=%r yh=%r eps=%r' % (v, R[name], yl[:6], yhl[:6], eps))
         rec.check(v >= 0 or v != v, name + ':negative', v)
         if case['rel'] == 'equal':
